@@ -378,7 +378,7 @@ def run_unit(unit) -> UnitResult:
                             r.add_violation(Violation(PROP, "CSVSearchRecorder", "earlier-log-changed-by-a-later-search",
                                                       {"simplegp": unit["extra"] == "simplegp2"}, {"unit": unit, "sequence": list(pseq), "next_sequence": list(seq)},
                                                       f"extra={unit['extra']}: the log of history {pseq} had {len(pfinal)} bytes when its search ended and "
-                                                      f"{len(pdev.content())} bytes after the next search (history {seq}) of the same process"))
+                                                      f"other content after the next search (history {seq}) of the same process"))
                         prec.csv_file.close()
                     prev_log = (dev, final, rec, seq)
                 finally:
